@@ -756,6 +756,71 @@ pub fn hidden_max_symbol(which: usize, field: u32) -> Vec<u8> {
     b
 }
 
+/// An INVALID 1x1 stream whose number of prefix-code groups is decided by a two-symbol SIMPLE code that names the larger
+/// symbol first.  Codes are canonical (the smaller symbol gets the bit 0 whatever order the stream names them in), so
+/// the meta pixel bit 1 selects the larger symbol `hi` and `hi + 1` groups follow, of which group `lo + 1` is invalid (a
+/// normal code whose code-length code uses no symbol).  A reader that assigns the bits in stream order reads `lo`,
+/// takes `lo + 1` groups and never sees the invalid one.  `in_red`: the code sits in the red channel (group number =
+/// red * 256 + green) instead of the green one.
+pub fn hidden_simple_order(hi: u32, lo: u32, in_red: bool) -> Vec<u8> {
+    assert!(lo < hi && hi < 256);
+    let mut bw = BitWriter::new();
+    bw.bits(0x2f, 8);
+    bw.bits(0, 14);
+    bw.bits(0, 14);
+    bw.bit(false);
+    bw.bits(0, 3);
+    bw.bit(false); // no transform
+    bw.bit(false); // no colour cache
+    bw.bit(true); // meta prefix image
+    bw.bits(0, 3); // block size 4: a 1x1 entropy image
+    bw.bit(false); // entropy image: no colour cache
+    let single0 = |bw: &mut BitWriter| {
+        bw.bit(true);
+        bw.bit(false);
+        bw.bit(false);
+        bw.bit(false);
+    };
+    let descending = |bw: &mut BitWriter| {
+        bw.bit(true); // simple
+        bw.bit(true); // two symbols
+        if hi < 2 {
+            bw.bit(false);
+            bw.bits(hi, 1);
+        } else {
+            bw.bit(true);
+            bw.bits(hi, 8);
+        }
+        bw.bits(lo, 8);
+    };
+    if in_red {
+        single0(&mut bw);
+        descending(&mut bw);
+    } else {
+        descending(&mut bw);
+        single0(&mut bw);
+    }
+    single0(&mut bw);
+    single0(&mut bw);
+    single0(&mut bw);
+    bw.bit(true); // the meta pixel: the code of the larger symbol
+    let valid_groups = if in_red { lo * 256 + 1 } else { lo + 1 };
+    for _ in 0..valid_groups {
+        for _ in 0..5 {
+            single0(&mut bw);
+        }
+    }
+    // the invalid group: a normal code whose code-length code has four zero lengths
+    bw.bit(false);
+    bw.bits(0, 4);
+    for _ in 0..4 {
+        bw.bits(0, 3);
+    }
+    let mut b = bw.bytes;
+    b.extend_from_slice(&[0; 8]);
+    b
+}
+
 /// An INVALID stream (a second colour-indexing transform) built so that a reader which sizes the preceding
 /// predictor / colour-transform sub-image too LARGE never sees the violation: the sub-image's pixels cost one bit each
 /// (two-symbol green code, everything else zero-bit), the violation sits right after the `r` pixels a correct reader
@@ -1112,6 +1177,66 @@ pub fn long_literals(rng: &mut Rng, shift: u32) -> Vec<u8> {
     for a in [280usize, 256, 256, 256, 40] {
         write_code(&mut bw, rng, &CodeSpec::Simple1(0, false), a, &mut viol, None);
     }
+    let mut b = bw.bytes;
+    b.extend_from_slice(&[0; 3]);
+    b
+}
+
+/// A valid 512x512 stream like `long_literals` (sub-image 128x128, about 100 KiB), but with literals of MIXED cost: a green code of depth 8 (lengths
+/// 1,2,..,7,8,8) and red/blue/alpha codes of depth 15, every symbol drawn at random - so the number of buffered bits at
+/// the top of the pixel loop takes every value, including those between the cost of the longest back-reference and
+/// the cost of the longest literal (green + alpha + red + blue), over a stream of several production buffers.
+pub fn long_literals_mixed(rng: &mut Rng) -> Vec<u8> {
+    let (w, h) = (512u32, 512u32);
+    let mut viol = Violations::default();
+    let mut bw = BitWriter::new();
+    bw.bits(0x2f, 8);
+    bw.bits(w - 1, 14);
+    bw.bits(h - 1, 14);
+    bw.bit(false);
+    bw.bits(0, 3);
+    bw.bit(true);
+    bw.bits(rng.below(2) as u32, 2); // predictor or colour transform
+    bw.bits(0, 3); // block 4 -> 128 x 128
+    bw.bit(false); // no colour cache
+    let mut glens = vec![0u8; 280];
+    for i in 0..7 {
+        glens[i] = i as u8 + 1;
+    }
+    glens[7] = 8;
+    glens[8] = 8;
+    let g = CodeSpec::Normal(glens, false);
+    let genc = Enc::of(&g);
+    write_code(&mut bw, rng, &g, 280, &mut viol, None);
+    let mut lens = vec![0u8; 256];
+    for i in 0..14 {
+        lens[i] = i as u8 + 1;
+    }
+    lens[14] = 15;
+    lens[15] = 15;
+    let deep = CodeSpec::Normal(lens, false);
+    let denc = Enc::of(&deep);
+    for _ in 0..3 {
+        write_code(&mut bw, rng, &deep, 256, &mut viol, None);
+    }
+    write_code(&mut bw, rng, &CodeSpec::Simple1(0, false), 40, &mut viol, None);
+    let total = 128u32 * 128;
+    for _ in 0..total {
+        // mostly the dearest literal (8 + 15 + 15 + 15 bits), some cheaper ones to move the alignment
+        let dear = rng.chance(6, 7);
+        genc.put(&mut bw, if dear { 7 + rng.below(2) as u16 } else { rng.below(9) as u16 });
+        for _ in 0..3 {
+            let sym = if dear { 14 + rng.below(2) as u16 } else { rng.below(16) as u16 };
+            denc.put(&mut bw, sym);
+        }
+    }
+    bw.bit(false);
+    bw.bit(false);
+    bw.bit(false);
+    for a in [280usize, 256, 256, 256, 40] {
+        write_code(&mut bw, rng, &CodeSpec::Simple1(0, false), a, &mut viol, None);
+    }
+    assert!(viol.what.is_empty());
     let mut b = bw.bytes;
     b.extend_from_slice(&[0; 3]);
     b
